@@ -61,6 +61,11 @@ func convertMarshal(val reflect.Value) (bool, string, error) {
 		}
 	}
 
+	// MarshalFlag may be declared on the pointer (as UnmarshalFlag has to be)
+	if val.IsValid() && val.Kind() != reflect.Ptr && val.CanAddr() {
+		return convertMarshal(val.Addr())
+	}
+
 	return false, "", nil
 }
 
